@@ -6,92 +6,157 @@ From GV Require Import Base Ty Conf Val Plan Eval EvalFacts.
 Import ListNotations.
 Open Scope N_scope.
 
-Ltac fin H := unfold obind in H; cbv beta iota in H; injection H as ? ?; subst; lia.
+Ltac fin H := unfold obind, tag in H; cbv beta iota in H; injection H as ? ?; subst; lia.
+
+Ltac mid H := apply (f_equal (fun x => snd (fst x))) in H; cbn [fst snd] in H.
+(* the custom-function oracle allocates monotonically, too *)
+Lemma mark_fields_mono mk zr : (forall t st v st' ok, mk t st = (v, st', ok) -> st <= st') ->
+  forall l st dn vs st' d, mark_fields mk zr l st dn = (vs, st', d) -> st <= st'.
+Proof.
+  intros Hm l. induction l as [|[nm ft] r IH]; intros st dn vs st' d H; cbn [mark_fields] in H; [mid H; subst; lia|].
+  destruct dn.
+  - destruct (mark_fields mk zr r st true) as [[vs' st3] d3] eqn:E3. mid H. subst. eapply IH. exact E3.
+  - destruct (mk ft st) as [[v1 st1] ok1] eqn:Em. apply Hm in Em. destruct ok1.
+    + destruct (mark_fields mk zr r st1 true) as [[vs' st3] d3] eqn:E3. mid H. subst. apply IH in E3. lia.
+    + destruct (mark_fields mk zr r st false) as [[vs' st3] d3] eqn:E3. mid H. subst. eapply IH. exact E3.
+Qed.
+Lemma mark_mono e fuel : forall t tok st v st' ok, mark e fuel t tok st = (v, st', ok) -> st <= st'.
+Proof.
+  induction fuel as [|f IH]; intros t tok st v st' ok H; [cbn [mark] in H; mid H; subst; lia|].
+  rewrite mark_S in H.
+  destruct (under e t) as [k|id|x|x|n x|k v0|p fs|k i]; try (mid H; subst; lia).
+  - destruct (mark e f x tok st) as [[v1 st1] ok1] eqn:E. apply IH in E. mid H. subst. lia.
+  - destruct (mark e f x tok st) as [[v1 st1] ok1] eqn:E. apply IH in E. mid H. subst. lia.
+  - destruct (mark_fields _ _ fs st false) as [[vs st1] ok1] eqn:E. mid H. subst.
+    eapply mark_fields_mono; [|exact E]. intros t0 st0 v0 st0' ok0 H0. eapply IH. exact H0.
+Qed.
 
 Section alloc.
   Variable e : env.
   Variable M : table.
+  Variable F : ftable.
 
   Definition mono_v (ev : vplan -> val -> N -> outcome (val * N)) : Prop :=
     forall p src st v st', ev p src st = Done (v, st') -> st <= st'.
   Definition mono_a (ea : aplan -> val -> val -> N -> outcome (val * N)) : Prop :=
     forall a src old st v st', ea a src old st = Done (v, st') -> st <= st'.
 
+  Lemma tag_done {A} d (o : outcome A) x : tag d o = Done x -> o = Done x.
+  Proof. destruct o; cbn; congruence. Qed.
+
   Lemma each_assign_mono ea : mono_a ea ->
-    forall a srcs olds st rs st', each_assign ea a srcs olds st = Done (rs, st') -> st <= st'.
+    forall a srcs i olds st rs st', each_assign ea i a srcs olds st = Done (rs, st') -> st <= st'.
   Proof.
-    intros Hm a srcs. induction srcs as [|s sr IH]; intros olds st rs st' H; cbn in H.
-    - fin H.
+    intros Hm a srcs. induction srcs as [|s sr IH]; intros i olds st rs st' H; cbn in H.
+    - inversion H; subst. lia.
     - destruct olds as [|o orr].
       + destruct (touches a s); [discriminate|]. eapply IH. exact H.
-      + destruct (ea a s o st) as [[v st1]| | |] eqn:E1; cbn [obind] in H; try discriminate.
-        destruct (each_assign ea a sr orr st1) as [[vs st2]| | |] eqn:E2; cbn [obind] in H; try discriminate.
-        inversion H; subst. apply Hm in E1. apply IH in E2. lia.
+      + destruct (ea a s o st) as [[v st1]| | | |] eqn:E1; cbn [obind tag] in H; try discriminate.
+        destruct (each_assign ea (i + 1) a sr orr st1) as [[vs st2]| | | |] eqn:E2; cbn [obind] in H; try discriminate.
+        injection H as ? ?; subst. apply Hm in E1. apply IH in E2. lia.
   Qed.
 
   Lemma each_entry_mono ev : mono_v ev ->
     forall k v kvs st rs st', each_entry ev k v kvs st = Done (rs, st') -> st <= st'.
   Proof.
     intros Hm k v kvs. induction kvs as [|[k0 v0] r IH]; intros st rs st' H; cbn in H.
-    - fin H.
-    - destruct (ev k k0 st) as [[k1 st1]| | |] eqn:E1; cbn [obind] in H; try discriminate.
-      destruct (ev v v0 st1) as [[v1 st2]| | |] eqn:E2; cbn [obind] in H; try discriminate.
-      destruct (each_entry ev k v r st2) as [[rs' st3]| | |] eqn:E3; cbn [obind] in H; try discriminate.
-      inversion H; subst. apply Hm in E1. apply Hm in E2. apply IH in E3. lia.
+    - inversion H; subst. lia.
+    - destruct (ev k k0 st) as [[k1 st1]| | | |] eqn:E1; cbn [obind tag] in H; try discriminate.
+      destruct (ev v v0 st1) as [[v1 st2]| | | |] eqn:E2; cbn [obind tag] in H; try discriminate.
+      destruct (each_entry ev k v r st2) as [[rs' st3]| | | |] eqn:E3; cbn [obind] in H; try discriminate.
+      injection H as ? ?; subst. apply Hm in E1. apply Hm in E2. apply IH in E3. lia.
   Qed.
 
-  Lemma each_field_mono ea : mono_a ea ->
-    forall fs src olds st rs st', each_field ea fs src olds st = Done (rs, st') -> st <= st'.
+  Lemma sel_eval_mono ev : mono_v ev -> forall sel src st s st0, sel_eval ev sel src st = Done (s, st0) -> st <= st0.
   Proof.
-    intros Hm fs. induction fs as [|f fr IH]; intros src olds st rs st' H; cbn in H.
-    - destruct olds; [|discriminate]. fin H.
+    intros Hv sel src st s st0 H. destruct sel as [|steps w|steps rd fi args fl w]; cbn in H.
+    - injection H as ? ?; subst. lia.
+    - destruct (walk steps src) as [[v|]|]; try discriminate; destruct w; try discriminate; injection H as ? ?; subst; lia.
+    - match type of H with match ?R with _ => _ end = _ => destruct R as [[rv|]|] end; try discriminate.
+      + destruct (ev (PCallX (CFn fi) args fl) rv st) as [[r st1]| | | |] eqn:E; cbn [obind] in H; try discriminate.
+        apply Hv in E. destruct w; injection H as ? ?; subst; lia.
+      + destruct w; try discriminate; injection H as ? ?; subst; lia.
+  Qed.
+
+  Lemma each_field_mono ev ea : mono_v ev -> mono_a ea ->
+    forall fs src olds st rs st', each_field ev ea fs src olds st = Done (rs, st') -> st <= st'.
+  Proof.
+    intros Hv Hm fs. induction fs as [|f fr IH]; intros src olds st rs st' H; cbn [each_field] in H.
+    - destruct olds; [|discriminate]. inversion H; subst. lia.
     - destruct olds as [|o orr]; [discriminate|].
-      destruct f as [|sel g a].
-      + cbn in H. destruct (each_field ea fr src orr st) as [[vs st2]| | |] eqn:E2; cbn [obind] in H; try discriminate.
-        inversion H; subst. eapply IH. exact E2.
-      + destruct (eval_sel sel src) as [s|]; [|discriminate].
-        destruct (g && is_zero s).
-        * cbn in H. destruct (each_field ea fr src orr st) as [[vs st2]| | |] eqn:E2; cbn [obind] in H; try discriminate.
-          inversion H; subst. eapply IH. exact E2.
-        * destruct (ea a s o st) as [[v st1]| | |] eqn:E1; cbn [obind] in H; try discriminate.
-          destruct (each_field ea fr src orr st1) as [[vs st2]| | |] eqn:E2; cbn [obind] in H; try discriminate.
-          inversion H; subst. apply Hm in E1. apply IH in E2. lia.
+      assert (K : forall (x : outcome (val * N)),
+                 (forall v st1, x = Done (v, st1) -> st <= st1) ->
+                 (let* (v, st1) := x in let* (vs, st2) := each_field ev ea fr src orr st1 in Done (v :: vs, st2)) = Done (rs, st') -> st <= st').
+      { intros x Hx Hk. destruct x as [[v st1]| | | |]; cbn [obind] in Hk; try discriminate.
+        destruct (each_field ev ea fr src orr st1) as [[vs st2]| | | |] eqn:E2; cbn [obind] in Hk; try discriminate.
+        injection Hk as ? ?; subst. specialize (Hx _ _ eq_refl). apply IH in E2. lia. }
+      eapply K; [|exact H]. intros v st1 Hd.
+      destruct f as [|nm sel g a|nm osel g p].
+      + injection Hd as ? ?; subst. lia.
+      + apply tag_done in Hd. destruct (sel_eval ev sel src st) as [[s st0]| | | |] eqn:Es; cbn [obind] in Hd; try discriminate.
+        apply (sel_eval_mono _ Hv) in Es. destruct (g && is_zero s).
+        * injection Hd as ? ?; subst. lia.
+        * apply Hm in Hd. lia.
+      + destruct osel as [sl|].
+        * apply tag_done in Hd. destruct (sel_eval ev sl src st) as [[s st0]| | | |] eqn:Es; cbn [obind] in Hd; try discriminate.
+          apply (sel_eval_mono _ Hv) in Es. destruct (g && is_zero s).
+          -- injection Hd as ? ?; subst. lia.
+          -- apply Hv in Hd. lia.
+        * apply tag_done in Hd. eapply Hv. exact Hd.
   Qed.
 
-  Theorem alloc_mono fuel : mono_v (eval_v e M fuel) /\ mono_a (eval_a e M fuel).
+  Theorem alloc_mono fuel : forall cx, mono_v (eval_v e M F fuel cx) /\ mono_a (eval_a e M F fuel cx).
   Proof.
-    induction fuel as [|f [IHv IHa]]; [split; intros ? ? ? ? ? ? H; try intros H'; cbn in *; discriminate|].
+    induction fuel as [|f IH]; intros cx; [split; intros ? ? ? ? ? ? H; try intros H'; cbn in *; discriminate|].
+    assert (IHv : forall cx, mono_v (eval_v e M F f cx)) by (intros c; apply IH).
+    assert (IHa : forall cx, mono_a (eval_a e M F f cx)) by (intros c; apply IH).
     split.
-    - intros p src st v st' H. rewrite eval_v_S in H. destruct p as [| |al q|m|t a|el a].
+    - intros p src st v st' H. rewrite eval_v_S in H. destruct p as [| |al q|m|c args fl|t a|ini tp a|el a].
       + fin H.
       + fin H.
-      + destruct (eval_v e M f q src st) as [[r st1]| | |] eqn:E; cbn [obind] in H; try discriminate.
+      + destruct (eval_v e M F f cx q src st) as [[r st1]| | | |] eqn:E; cbn [obind] in H; try discriminate.
         apply IHv in E. destruct al; fin H.
       + destruct (nth_error M (N.to_nat m)) as [mt|]; [|discriminate].
-        destruct (g_body mt) as [[p'|a']|]; try discriminate. eapply IHv. exact H.
+        destruct (body_plan mt) as [[p' wr]|]; try discriminate.
+        destruct (eval_v e M F f [] p' src st) as [[r st1]| | | |] eqn:E; try discriminate.
+        apply IHv in E. injection H as ? ?; subst. exact E.
+      + destruct (negb (args_ok cx args)); [discriminate|]. cbv zeta in H. destruct c as [fi|m].
+        * destruct (nth_error F (N.to_nat fi)) as [fd|]; [|discriminate].
+          destruct (fd_err fd && _); [discriminate|].
+          destruct (mark e 60 _ _ st) as [[v1 st1] ok] eqn:E.
+          apply mark_mono in E. injection H as ? ?; subst. exact E.
+        * destruct (nth_error M (N.to_nat m)) as [mt|]; [|discriminate].
+          destruct (body_plan mt) as [[p' wr]|]; try discriminate.
+          match type of H with match ?X with _ => _ end = _ => destruct X as [[r st1]| | | |] eqn:E end; try discriminate.
+          apply IHv in E. injection H as ? ?; subst. exact E.
       + eapply IHa. exact H.
+      + destruct (eval_v e M F f cx ini src st) as [[v0 st1]| | | |] eqn:E; cbn [obind] in H; try discriminate.
+        apply IHv in E. destruct tp; apply IHa in H; lia.
       + destruct src; try discriminate. apply IHa in H. lia.
-    - intros a src old st v st' H. rewrite eval_a_S in H. destruct a as [q|q|q|fx el a'|k vv|fs|a'].
+    - intros a src old st v st' H. rewrite eval_a_S in H. destruct a as [q|q|q|fx el a'|k vv|fs|a'|a'].
       + eapply IHv. exact H.
       + destruct src; try discriminate; [fin H|].
-        destruct (eval_v e M f q src st) as [[r st1]| | |] eqn:E; cbn [obind] in H; try discriminate.
+        destruct (eval_v e M F f cx q src st) as [[r st1]| | | |] eqn:E; cbn [obind] in H; try discriminate.
         apply IHv in E. fin H.
       + destruct src; try discriminate; [fin H|]. eapply IHv. exact H.
       + destruct fx.
         * destruct src; try discriminate. destruct old; try discriminate.
-          -- destruct (each_assign (eval_a e M f) a' vs [] st) as [[rs st1]| | |] eqn:E; cbn [obind] in H; try discriminate.
-             apply (each_assign_mono _ IHa) in E. fin H.
-          -- destruct (each_assign (eval_a e M f) a' vs vs0 st) as [[rs st1]| | |] eqn:E; cbn [obind] in H; try discriminate.
-             apply (each_assign_mono _ IHa) in E. fin H.
+          -- destruct (each_assign (eval_a e M F f cx) 0 a' vs [] st) as [[rs st1]| | | |] eqn:E; cbn [obind] in H; try discriminate.
+             apply (each_assign_mono _ (IHa cx)) in E. fin H.
+          -- destruct (each_assign (eval_a e M F f cx) 0 a' vs vs0 st) as [[rs st1]| | | |] eqn:E; cbn [obind] in H; try discriminate.
+             apply (each_assign_mono _ (IHa cx)) in E. fin H.
         * destruct src; try discriminate; [fin H|].
-          destruct (each_assign _ _ _ _ _) as [[rs st1]| | |] eqn:E; cbn [obind] in H; try discriminate.
-          apply (each_assign_mono _ IHa) in E. fin H.
+          destruct (each_assign _ _ _ _ _ _) as [[rs st1]| | | |] eqn:E; cbn [obind] in H; try discriminate.
+          apply (each_assign_mono _ (IHa cx)) in E. fin H.
       + destruct src; try discriminate; [fin H|].
-        destruct (each_entry _ _ _ _ _) as [[rs st1]| | |] eqn:E; cbn [obind] in H; try discriminate.
-        apply (each_entry_mono _ IHv) in E. fin H.
+        destruct (each_entry _ _ _ _ _) as [[rs st1]| | | |] eqn:E; cbn [obind] in H; try discriminate.
+        apply (each_entry_mono _ (IHv cx)) in E. fin H.
       + destruct old; try discriminate.
-        destruct (each_field _ _ _ _ _) as [[rs st1]| | |] eqn:E; cbn [obind] in H; try discriminate.
-        apply (each_field_mono _ IHa) in E. fin H.
+        destruct (each_field _ _ _ _ _ _) as [[rs st1]| | | |] eqn:E; cbn [obind] in H; try discriminate.
+        apply (each_field_mono _ _ (IHv cx) (IHa cx)) in E. fin H.
       + destruct src; try discriminate; [fin H|]. eapply IHa. exact H.
+      + destruct old; try discriminate.
+        destruct (eval_a e M F f cx a' src old st) as [[r st1]| | | |] eqn:E; cbn [obind] in H; try discriminate.
+        apply IHa in E. fin H.
   Qed.
 End alloc.
